@@ -1243,7 +1243,7 @@ def finish_tables(F, rep, rule="C19.1"):
         rows = 0
         # graph sizes: 0..3, plus one past every size constant the code reachable from this function mentions (block sizes, cut-offs)
         big = [c + 1 for c in size_thresholds(F, body)]
-        sizes = [0, 1, 2, 3] + big[:(3 if rep.tier == "thorough" else 2)]
+        sizes = [0, 1, 2, 3] + big[-(3 if rep.tier == "thorough" else 2):]
         for n in sizes:
             def run(h, n=n):
                 it = Interp(F, False, h)
